@@ -1,4 +1,91 @@
 package main
 
+import (
+	"fmt"
+	"go/ast"
+	"go/constant"
+	"go/types"
+	"sort"
+	"strings"
+)
+
+const leanPrelude = `def byteAt (p : List UInt8) (i : Int) : Int := ((p.getD i.toNat 0).toNat : Int)
+`
+
+type fnSpec struct {
+	file, recv, name, leanName string
+}
+
+func genTranslated(ns string, specs []fnSpec, consts map[string][]string) {
+	var b strings.Builder
+	fmt.Fprintf(&b, "namespace Gen.%s\n\n%s\n", ns, leanPrelude)
+	sigs := map[string][]string{}
+	byFile := map[string][]fnSpec{}
+	var files []string
+	for _, s := range specs {
+		if _, ok := byFile[s.file]; !ok {
+			files = append(files, s.file)
+		}
+		byFile[s.file] = append(byFile[s.file], s)
+	}
+	for f := range consts {
+		if _, ok := byFile[f]; !ok {
+			files = append(files, f)
+		}
+	}
+	sort.Strings(files)
+	for _, file := range files {
+		pkg, info, f, _ := typeCheck(file)
+		if f == nil {
+			continue
+		}
+		for _, cn := range consts[file] {
+			if pkg == nil {
+				failf("%s: cannot type-check", file)
+				continue
+			}
+			c, ok := pkg.Scope().Lookup(cn).(*types.Const)
+			if !ok || c.Val().Kind() != constant.Int {
+				failf("%s: constant %s not found", file, cn)
+				continue
+			}
+			fmt.Fprintf(&b, "def %s : Nat := %s\n", cn, c.Val().ExactString())
+		}
+		for _, s := range byFile[file] {
+			fn := findFunc(f, s.recv, s.name)
+			if fn == nil {
+				failf("%s: function %s.%s not found", file, s.recv, s.name)
+				continue
+			}
+			src, params, err := translateFunc(fn, info, s.leanName)
+			if err != nil {
+				failf("%s: %s.%s: %v", file, s.recv, s.name, err)
+				continue
+			}
+			sigs[s.leanName] = params
+			fmt.Fprintf(&b, "\n/-- translated from %s (%s) -/\n%s", s.name, file, src)
+		}
+	}
+	fmt.Fprintf(&b, "\nend Gen.%s\n", ns)
+	writeLean(ns, b.String())
+	facts["sig_"+ns] = sigs
+}
+
+var _ = ast.NewIdent
+
 func genAll() {
+	genTranslated("Listener", []fnSpec{
+		{"daemon/internal/newrelic/listener.go", "", "isLegacyAgent", "isLegacyAgent"},
+	}, map[string][]string{"daemon/internal/newrelic/listener.go": {"maxMessageSize", "msgHeaderSize", "MessageTypeRaw", "MessageTypeJSON", "MessageTypeBinary"}})
+
+	genTranslated("Status", []fnSpec{
+		{"daemon/internal/newrelic/collector/client.go", "RPMResponse", "IsDisconnect", "isDisconnect"},
+		{"daemon/internal/newrelic/collector/client.go", "RPMResponse", "IsRestartException", "isRestartException"},
+		{"daemon/internal/newrelic/collector/client.go", "RPMResponse", "IsInvalidLicense", "isInvalidLicense"},
+		{"daemon/internal/newrelic/collector/client.go", "RPMResponse", "ShouldSaveHarvestData", "shouldSaveHarvestData"},
+	}, nil)
+
+	genTranslated("Respawn", []fnSpec{
+		{"daemon/cmd/daemon/watcher.go", "workerState", "ShouldRespawn", "shouldRespawn"},
+	}, nil)
 }
